@@ -36,4 +36,14 @@ public final class TextOv {
 		final String str = ((StringValue) c).val.toString();
 		return IntValue.gen(str.isEmpty() ? -1 : str.charAt(0));
 	}
+
+	@TLAPlusOperator(identifier = "HexBytes", module = "Chars", warn = false)
+	public static Value hexBytes(final Value s) {
+		final String str = ((StringValue) s).val.toString();
+		final Value[] e = new Value[str.length() / 2];
+		for (int i = 0; i < e.length; i++) {
+			e[i] = IntValue.gen(Integer.parseInt(str.substring(2 * i, 2 * i + 2), 16));
+		}
+		return new TupleValue(e);
+	}
 }
